@@ -34,6 +34,24 @@ class NonDyadic(Exception):
     pass
 
 
+class Dur(float):
+    """a user-defined duration type: still a number"""
+
+
+class Beats(int):
+    """an int subclass (like an IntEnum member)"""
+
+
+def number(x, kind):
+    if kind == 1:
+        return Dur(x)
+    if kind == 2 and x == int(x):
+        return Beats(int(x))
+    if kind == 3 and x == int(x):
+        return int(x)
+    return x
+
+
 def main_():
     inp = json.load(open(sys.argv[1]))
     if MODE == 'rt':
@@ -77,6 +95,8 @@ class Runner:
         for name, (num, den) in sorted(prog['clocks'].items()):
             self.clocks[name] = clk.TempoClock(num / den)
         self.routines = {}
+        self.in_func = None
+        self.yr_done = set()
         self.elems = {}
         self.conds = {}
         self.addr = addr
@@ -101,9 +121,28 @@ class Runner:
 
     def routine(self, name):
         from sc3.base.stream import Routine
+        from sc3.base.functions import Function
         if name not in self.routines:
-            self.routines[name] = Routine(self.body(name))
+            if name in self.prog.get('funcs', []):
+                self.routines[name] = Function(self.fbody(name))
+            else:
+                self.routines[name] = Routine(self.body(name))
         return self.routines[name]
+
+    def fbody(self, name):
+        """a plain function scheduled on a clock: runs once, may send"""
+        instrs = self.prog['routines'][name]
+
+        def f(me, clock):
+            self.in_func = name
+            try:
+                self.obs(name, 0, clock)
+                for i in instrs:
+                    if i['op'] in ('S', 'M'):
+                        self.send(name, i)
+            finally:
+                self.in_func = None
+        return f
 
     def obs(self, name, n, clock):
         secs = clock.seconds - self.base
@@ -113,7 +152,12 @@ class Runner:
 
     def play(self, name, cname, q=0, ph=0):
         from sc3.base.clock import Quant
+        from sc3.base.main import main
         r = self.routine(name)
+        if name in self.prog.get('funcs', []):
+            c = self.clocks[cname] if cname else main.current_tt._clock
+            c.play(r, Quant(q // TU if q % TU == 0 else q / TU, ph / TU) if (q or ph) else 0)
+            return
         quant = Quant(q // TU if q % TU == 0 else q / TU, ph / TU) if (q or ph) else 0
         if cname == '':
             r.play(None, quant)
@@ -146,7 +190,7 @@ class Runner:
             for i in instrs:
                 op = i['op']
                 if op == 'Y':
-                    me, clock = yield i['a'] / TU
+                    me, clock = yield number(i['a'] / TU, i['b'])
                     n += 1
                     self.obs(name, n, clock)
                 elif op == 'P':
@@ -161,6 +205,11 @@ class Runner:
                     self.clocks[i['c']].etempo(i['a'] / i['b'])
                 elif op == 'TB':
                     self.clocks[i['c']].beats = i['a'] / TU
+                elif op == 'YR':
+                    if name not in self.yr_done:
+                        self.yr_done.add(name)
+                        from sc3.base.stream import YieldAndReset
+                        raise YieldAndReset(i['a'] / TU)
                 elif op == 'E':
                     raise RuntimeError('scripted failure in ' + name)
                 elif op == 'X':
@@ -346,6 +395,8 @@ def run_rt(S, prog):
     def cur():
         if S.cur.label == 'user':
             return 'user'
+        if R.in_func:
+            return R.in_func
         tt = main.current_tt
         for k, v in R.routines.items():
             if v is tt:
